@@ -403,7 +403,9 @@ impl Ctx {
                 // all zero; one byte too long; the genuine value with one hexadecimal digit appended to its text
                 let form = self.bad_forms.get();
                 self.bad_forms.set(form + 1);
-                match form % 6 {
+                // (the text-level form only on layouts: a link file that cannot be read fails the verification as a
+                // whole, whereas a link with an invalid signature merely does not count - the forms must be equivalent)
+                match if d["typ"] == "layout" { form % 6 } else { form % 5 } {
                     5 => odd_hex.push(sigs.len()),
                     0 => {
                         let i = v.len() / 3;
